@@ -13,6 +13,8 @@ PROP = "C04"
 V, I, S = A.Var, A.Int, A.Str
 
 TOKENS = ["Dx", "Dy", "Ax", "Ay", "Rx", "Ry", "{", "L{", "Ff{", "Fg{", "}", "Cf", "Cg", "RET", "CRf", "CRg", "Ox"]
+# only in the random (longer) histories: early exits out of nested scopes, closures that escape by assignment
+EXTRA = ["BRK", "CNT", "RTx", "EK", "CK", "I{"]
 
 
 def build(seq):
@@ -24,9 +26,25 @@ def build(seq):
         return I(counter[0])
 
     stack = [("top", [], None)]
+    if "EK" in seq or "CK" in seq:
+        stack[0][1].append(A.Declare(V("keep"), A.Null()))
     for t in seq:
         cur = stack[-1][1]
-        if t[0] == "D":
+        if t in ("BRK", "CNT"):
+            if not any(k == "loop" for k, _, _ in stack):
+                return None
+            cur.append(A.Break() if t == "BRK" else A.Continue())
+        elif t == "RTx":
+            if not any(k == "fn" for k, _, _ in stack):
+                return None
+            cur.append(A.Return(V("x")))
+        elif t == "EK":
+            cur.append(A.Assign(V("keep"), A.FuncE([], False, [A.OpAssign("+", V("x"), I(10000)), A.Return(V("x"))])))
+        elif t == "CK":
+            cur.append(A.pr(A.call("keep")))
+        elif t == "I{":
+            stack.append(("if", [], None))
+        elif t[0] == "D":
             cur.append(A.Declare(V(t[1]), val()))
         elif t[0] == "A":
             cur.append(A.Assign(V(t[1]), val()))
@@ -49,6 +67,8 @@ def build(seq):
                 if not body:
                     return None
                 cur.append(A.Block(body))
+            elif kind == "if":
+                cur.append(A.If([(A.Bool(True), body)], None))
             elif kind == "loop":
                 cur.append(A.For(V("_"), A.lst(I(1), I(2)), body))
             else:
@@ -74,6 +94,8 @@ def build(seq):
             if not body:
                 return None
             cur.append(A.Block(body))
+        elif kind == "if":
+            cur.append(A.If([(A.Bool(True), body)], None))
         elif kind == "loop":
             cur.append(A.For(V("_"), A.lst(I(1), I(2)), body))
         else:
@@ -166,12 +188,12 @@ def judge_program(prog_fn, what, do_rename, rng):
         return out
     o0 = core.run_one({"src": r0.text})
     out["runs"] += 1
-    if o0.stack_overflow or o0.timeout:
-        out["inconclusive"] = "timeout/stack"
+    if o0.timeout:
+        out["inconclusive"] = "timeout"
         return out
     mm0 = judge.outcome_mismatch(o0, res0)
     if mm0:
-        out["viol"].append(("model/" + ("crash" if o0.crashed else "behaviour"), "%s: %s" % (what, mm0),
+        out["viol"].append(("model/" + ("crash" if o0.died else "behaviour"), "%s: %s" % (what, mm0),
                             {"src": r0.text, "oracle": "model differential (lexical resolution)", "expected": judge.expected_brief(res0), "observed": o0.brief()}))
         return out
     # ... the renaming variants use the shorthand-free spelling (`{a}` -> `{"a": a}`) so property keys stay put
@@ -188,12 +210,12 @@ def judge_program(prog_fn, what, do_rename, rng):
     out["lines"] = res.out.count(b"\n")
     o = core.run_one({"src": r.text})
     out["runs"] += 1
-    if o.stack_overflow or o.timeout:
-        out["inconclusive"] = "timeout/stack"
+    if o.timeout:
+        out["inconclusive"] = "timeout"
         return out
     mm = judge.outcome_mismatch(o, res)
     if mm:
-        out["viol"].append(("model/" + ("crash" if o.crashed else "behaviour"), "%s: %s" % (what, mm),
+        out["viol"].append(("model/" + ("crash" if o.died else "behaviour"), "%s: %s" % (what, mm),
                             {"src": r.text, "oracle": "model differential (lexical resolution)", "expected": judge.expected_brief(res), "observed": o.brief()}))
         return out
     if not do_rename:
@@ -300,6 +322,11 @@ def run(rep, tier):
         n = rng.choice([5, 6, 7, 8, 10])
         seq = tuple(rng.choices(TOKENS, weights)[0] for _ in range(n))
         jobs.append(("seq", seq, True))
+    for _ in range(nrand // 2):
+        n = rng.choice([6, 7, 8, 10, 12])
+        seq = tuple(rng.choices(TOKENS + EXTRA, weights + [2, 1, 2, 2, 2, 2])[0] for _ in range(n))
+        if any(t in EXTRA for t in seq):
+            jobs.append(("seq", seq, True))
     for _ in range(2500 if tier == "quick" else 50000):
         jobs.append(("progen", rng.randrange(1 << 40)))
     for name in named_cases():
